@@ -273,6 +273,7 @@ class FakeOs(object):
         self.fork_hook = None
         self.waitpid_hook = None
         self.exit_hook = None
+        self.kill_hook = None
 
     @staticmethod
     def rename(a, b):
@@ -300,6 +301,9 @@ class FakeOs(object):
 
     def _exit(self, code):
         return self.exit_hook(code)
+
+    def kill(self, pid, sig):
+        return self.kill_hook(pid, sig)
 
     # wait-status helpers are pure functions
     import os as _os
